@@ -358,6 +358,80 @@ def _same(a: ast.AST, b: ast.AST) -> bool:
     return ast.dump(a) == ast.dump(b)
 
 
+def _flow_substitute(fn: ast.FunctionDef, p: str, d: ast.AST) -> None:
+    """replace loads of `p` by the literal `d` wherever only the initial binding of `p` can reach them (a flow-sensitive walk over the structured
+    statements; a loop whose body stores `p` is left alone entirely; nested functions are not entered)"""
+
+    def stores(node) -> bool:
+        return any(isinstance(x, ast.Name) and x.id == p and isinstance(x.ctx, (ast.Store, ast.Del)) for x in ast.walk(node)) or any(
+            isinstance(x, ast.ExceptHandler) and x.name == p for x in ast.walk(node))
+
+    class Sub(ast.NodeTransformer):
+        def visit_Name(self, node):
+            if node.id == p and isinstance(node.ctx, ast.Load):
+                return ast.copy_location(acopy(d), node)
+            return node
+
+        def visit_Lambda(self, node):
+            return node
+
+        def visit_FunctionDef(self, node):
+            return node
+
+    def sub_expr(owner, field):
+        v = getattr(owner, field, None)
+        if isinstance(v, ast.AST):
+            setattr(owner, field, Sub().visit(v))
+
+    def block(stmts, live: bool) -> bool:
+        """process a statement list; `live` = only the initial binding reaches here.  Returns whether that still holds afterwards."""
+        for st in stmts:
+            if not live:
+                return False
+            if isinstance(st, (ast.FunctionDef, ast.AsyncFunctionDef, ast.ClassDef)):
+                continue
+            if isinstance(st, ast.If):
+                sub_expr(st, "test")
+                if stores(st.test):
+                    return False
+                a = block(st.body, True)
+                b = block(st.orelse, True)
+                live = a and b
+            elif isinstance(st, (ast.For, ast.AsyncFor, ast.While)):
+                if stores(st):
+                    return False
+                Sub().visit(st)
+            elif isinstance(st, (ast.With, ast.AsyncWith)):
+                for it in st.items:
+                    it.context_expr = Sub().visit(it.context_expr)
+                if any(stores(it) for it in st.items):
+                    return False
+                live = block(st.body, True)
+            elif isinstance(st, ast.Try) or st.__class__.__name__ == "TryStar":
+                if stores(st):
+                    return False
+                Sub().visit(st)
+            else:
+                # simple statement: the right-hand side is evaluated before the store
+                if isinstance(st, (ast.Assign, ast.AnnAssign, ast.AugAssign)) and getattr(st, "value", None) is not None:
+                    st.value = Sub().visit(st.value)
+                    if isinstance(st, ast.AugAssign) and stores(st.target):
+                        return False
+                    tg = st.targets if isinstance(st, ast.Assign) else [st.target]
+                    for t in tg:
+                        if not (isinstance(t, ast.Name)):
+                            Sub().visit(t)
+                    if stores(st):
+                        live = False
+                elif stores(st):
+                    return False
+                else:
+                    Sub().visit(st)
+        return live
+
+    block(fn.body, True)
+
+
 def specialise_defaults(trees: Dict[str, ast.Module]) -> List[str]:
     log: List[str] = []
     for _round in range(4):
@@ -443,7 +517,17 @@ def specialise_defaults(trees: Dict[str, ast.Module]) -> List[str]:
                         if any(isinstance(x, ast.Name) and x.id == p for x in ast.walk(s_)):
                             break  # used before the idiom
                     if not (idiom is not None and len(rebound) == 1 and isinstance(d, ast.Constant) and d.value is None):
-                        continue
+                        idiom = None
+                        if not _literal(d):
+                            continue
+                        # the parameter doubles as a local: loads that only the parameter binding reaches get the default, and the binding itself
+                        # becomes a leading `p = <default>` (kept only as long as some load still needs it)
+                        _flow_substitute(fn, p, d)
+                        init = ast.copy_location(ast.Assign(targets=[ast.Name(id=p, ctx=ast.Store())], value=acopy(d)), fn.body[0])
+                        init._inl_temp = True  # type: ignore[attr-defined]
+                        k0 = 1 if fn.body and isinstance(fn.body[0], ast.Expr) and isinstance(fn.body[0].value, ast.Constant) and isinstance(fn.body[0].value.value, str) else 0
+                        fn.body.insert(k0, init)
+                        rebound = "flow"
                 # substitute the default in the body
                 class S(ast.NodeTransformer):
                     def visit_Name(self, node):
@@ -463,6 +547,8 @@ def specialise_defaults(trees: Dict[str, ast.Module]) -> List[str]:
                 if idiom is not None:
                     idiom.body[0]._inl_temp = True  # type: ignore[attr-defined]  # a binding this pass introduced: folded back if used once
                     fn.body[fn.body.index(idiom)] = idiom.body[0]
+                elif rebound == "flow":
+                    pass
                 else:
                     fn.body = [S().visit(s) for s in fn.body]
                 # drop the parameter
